@@ -6,6 +6,7 @@
 //     matching unlock is deferred by the very next statement, and which receiver fields it touches before that;
 //   - for the transition methods of *EntRepository: the source-order sequence of guarded-UPDATE events
 //     (Where(task.StateEQ(X)), SetState(Y), Exec/Save) and reads (GetById).
+//
 // usage: go2coq <repo root>   (Coq text on stdout)
 package main
 
